@@ -21,6 +21,17 @@ func checkC16(p *Prog, c *Check) {
 	c02Fired(p, c)
 	matchOperatorTable(p, c, "C02-R6.match")
 	c16Loops(p, c)
+	// the sync loop the processors run in (shared with C15): the position is read only after a
+	// successful reorg check, ranges tile [start, end] exactly, rollbacks delete exactly what lies above
+	// the stored position, the stored hash belongs to the stored number
+	for _, sp := range syncers {
+		if sp.name == "multi" {
+			c15Order(p, c, sp)
+			c15Rollback(p, c, sp)
+			c15Hash(p, c, sp)
+		}
+	}
+	c15Ranges(p, c)
 }
 
 var reTable = regexp.MustCompile(`(?i)\b(from|join|into|update)\s+([a-z_][a-z0-9_]*)`)
